@@ -214,6 +214,9 @@ func hostileRequests(r *rng, n int) []hreq {
 		"/", "", "//", "/:", ":", "/h", "/h/", "/h//typed", "/h/typed/1/true/RED/", "h/typed/1/true/RED", "/%", "/%zz", "/h/typed/%31/true/RED",
 		"/" + strings.Repeat("a/", 40), "/" + strings.Repeat("a:", 40), "/" + strings.Repeat("a", 5000), "/h/deep/aa/bb/cc/" + strings.Repeat("x/", 70),
 		"/vs.H/Unary", "/vs.H/Unary/", "/vs.H/Unary:x", "/vs.H/", "/vs.H", "/vs.H/Nope", "/vs.H/Bidi", "/h/ws/x", "/h/bf/x", "/t/unary", "/t/bidi",
+		// characters that are not path characters, 2, 3 and 4 bytes long, at the very start of the path, of a segment, of a verb,
+		// and after a legal character
+		"/€", "/§/one", "/😀", "/€x", "/a/😀", "/a:😀", "/a€", "/h/typed/€/true/RED", "/h/dv/books/€:read", "/\u00a0", "/h:§",
 		"/h/typed/\x00/true/RED", "/h/typed/1/true/\xff\xfe", "/h/typed/١/true/RED", "/h/typed/1e3/true/RED", "/h/typed/-0/True/7"}
 	queries := []string{"", "s=x", "i=1&i=2", "r=a&r=b", "rn.s=x", "rn=1", "mp=1", "mp.k=v", "n=1", "n.s.x=1", "s.x=1", "zz=1", "n.deep.i=x", "ts=bad", "wi32=x",
 		"by=!!", "en=NOPE", "=", "&&&", "a=%zz", "os=a&oi=1", "hb=1", "hb.data=AA", "ri=1&ri=x", "b.rs=a&b.rs=b", "n.rs=1", "%6e.s=x", strings.Repeat("s=x&", 300)}
